@@ -216,8 +216,10 @@ PostF(f, A, O, r, x, gl) ==
      [] f = "mpf_abs" -> CopyOf(R, DyAbs(Dy(A[2])), p)
      [] f = "mpf_mul_2exp" -> CopyOf(R, DyShl(Dy(A[2]), I(A[3])), p)
      [] f = "mpf_div_2exp" -> CopyOf(R, DyShl(Dy(A[2]), -I(A[3])), p)
-     [] f = "mpf_floor" -> CopyOf(R, DyZ(DyFloor(Dy(A[2]))), p)
-     [] f = "mpf_ceil" -> CopyOf(R, DyZ(DyCeil(Dy(A[2]))), p)
+        \* exact when the integer fits the destination; an integer longer than the destination precision is cut to it within the accuracy bound,
+        \* toward zero or in the direction of the rounding function (the manual fixes neither)
+     [] f = "mpf_floor" -> LET X == DyZ(DyFloor(Dy(A[2]))) IN IF Fits(X, p) THEN DyEq(R, X) ELSE Close(R, X, p) /\ ZSgn(R[1]) = ZSgn(X[1])
+     [] f = "mpf_ceil" -> LET X == DyZ(DyCeil(Dy(A[2]))) IN IF Fits(X, p) THEN DyEq(R, X) ELSE Close(R, X, p) /\ ZSgn(R[1]) = ZSgn(X[1])
      [] f = "mpf_trunc" -> CopyOf(R, DyZ(DyTrunc(Dy(A[2]))), p)
      [] f = "mpf_integer_p" -> Bool(r, DyEq(DyZ(DyTrunc(Dy(A[1]))), Dy(A[1])))
      [] f = "mpf_cmp" -> SgnI(r) = DyCmp(Dy(A[1]), Dy(A[2]))
